@@ -5,26 +5,6 @@ open Lean NmlVerif.Hdf5 Drv
 /-! line-protocol driver for C05: ops `enc` (Doc → H5), `dec` (H5 → Doc), `rt` (Doc → Doc), `sem` (Doc → expected
     semantic value `expect f32 (sem d)`), `f32` (rounding of a list of rationals). Rationals travel as `[num, den]`. -/
 
-/-! ### float32 rounding on rationals (round to nearest, ties to even; subnormals; no overflow handling) -/
-
-def pow2 (e : Int) : Rat :=
-  if e ≥ 0 then ((2 ^ e.toNat : Nat) : Rat) else 1 / ((2 ^ (-e).toNat : Nat) : Rat)
-
-def roundHalfEven (q : Rat) : Int :=
-  let f := q.floor
-  let d := q - (f : Rat)
-  if d < 1/2 then f else if d > 1/2 then f + 1 else if f % 2 = 0 then f else f + 1
-
-def f32 (x : Rat) : Rat :=
-  if x = 0 then 0 else
-  let a := if x < 0 then -x else x
-  let e0 : Int := (Nat.log2 a.num.natAbs : Int) - (Nat.log2 a.den : Int)
-  let e := if pow2 e0 ≤ a then (if pow2 (e0 + 1) ≤ a then e0 + 1 else e0) else e0 - 1
-  let e := if e < -126 then -126 else e
-  let ulp := pow2 (e - 23)
-  let v := (roundHalfEven (a / ulp) : Rat) * ulp
-  if x < 0 then -v else v
-
 /-! ### JSON in -/
 
 def jRat (j : Json) : Rat :=
@@ -141,7 +121,11 @@ def jH5 (j : Json) : H5 :=
 def jCfg (j : Json) : Cfg :=
   let old := getBool j "old"
   let ft := match j.getObjVal? "fracTruthy" with | .ok (.bool b) => b | _ => true
-  if old then Cfg.old f32 ft else { r := f32, fracTruthy := ft }
+  let b := fun (k : String) (d : Bool) => match j.getObjVal? k with | .ok (.bool v) => v | _ => d
+  if old then Cfg.old f32 ft
+  else { r := f32, fracTruthy := ft, prefixNames := b "prefixNames" true, tagWhole := b "tagWhole" true,
+         refuseMixed := b "refuseMixed" true, elecRefuseW := b "elecRefuseW" true, loc4Fixed := b "loc4Fixed" true,
+         optNoNet := b "optNoNet" true }
 
 /-! ### JSON out -/
 
@@ -215,7 +199,7 @@ def oErr (e : Err) : Json :=
   Json.mkObj [("err", match e with
     | .exception => "Exception" | .indexError => "IndexError" | .valueError => "ValueError"
     | .nodeError => "NodeError" | .typeError => "TypeError" | .keyError => "KeyError"
-    | .attributeError => "AttributeError" | .unmodelled => "unmodelled")]
+    | .attributeError => "AttributeError" | .assertionError => "AssertionError" | .unmodelled => "unmodelled")]
 
 def oEnd (e : String × Int) : Json := Json.arr #[oStr e.1, oInt e.2]
 
@@ -260,6 +244,16 @@ def handle (j : Json) : Json :=
     match roundTrip cfg (jDoc (fld j "doc")) with
     | .ok d => Json.mkObj [("ok", oDoc d)]
     | .error e => oErr e
+  | "rtopt" =>
+    match roundTripOpt cfg (getBool (fld j "cfg") "popNames") (jDoc (fld j "doc")) with
+    | .ok d => Json.mkObj [("ok", oDoc d)]
+    | .error e => oErr e
+  | "decopt" =>
+    match decodeDocOpt cfg (getBool (fld j "cfg") "popNames") (jH5 (fld j "h5")) with
+    | .ok d => Json.mkObj [("ok", oDoc d)]
+    | .error e => oErr e
+  | "fate" => Json.mkObj [("ok", oList (fun r => Json.arr #[oStr r.1, oStr r.2.1, oStr (match r.2.2 with
+      | .stored => "stored" | .derived => "derived" | .refused => "refused" | .dropped => "dropped")]) memberFateAll)]
   | "sem" => Json.mkObj [("ok", oSem (expect f32 (sem (jDoc (fld j "doc")))))]
   | "f32" => Json.mkObj [("ok", oList oRat ((jList (fld j "xs")).map (fun x => f32 (jRat x))))]
   | _ => Json.mkObj [("err", "bad-op")]
